@@ -81,7 +81,7 @@ func endorseRealWith(a *Authority, r *rand.Rand, at time.Time, wrap func(*keys.C
 		if r.Intn(2) == 0 {
 			prod = sevsnp.SevProduct_SEV_PRODUCT_GENOA
 		}
-		ectx.SevSnp = &sev.SnpEndorsementRequest{Product: prod, LaunchVmsas: []uint32{0, 1, 2, 4, 240}[r.Intn(5)], Svn: uint32(r.Intn(4))}
+		ectx.SevSnp = &sev.SnpEndorsementRequest{Product: prod, LaunchVmsas: []uint32{0, 1, 2, 4, 240, 6, 12}[r.Intn(7)], Svn: uint32(r.Intn(4))}
 		if r.Intn(2) == 0 {
 			m := fx.Sha384([]byte(fmt.Sprintf("svsm %d", r.Int())))
 			ectx.SvsmSnpMeasurement = m
@@ -166,6 +166,16 @@ func verifyDoc(d *issuedDoc, root *x509.Certificate) []string {
 			}
 		}
 	}
+	// ... and the relying party's policy derivation names it for that count (any count the signer
+	// endorsed, also those outside the table of predefined machine shapes)
+	if g.SevSnp != nil {
+		for n, m := range g.SevSnp.Measurements {
+			pol, perr := gtb.SevPolicy(context.Background(), e, &gtb.SevPolicyOptions{LaunchVmsas: n})
+			if perr != nil || !bytes.Equal(pol.GetMeasurement(), m) {
+				bad = append(bad, fmt.Sprintf("SevPolicy for %d launch VMSAs does not yield the measurement listed for that count (err=%v)", n, perr))
+			}
+		}
+	}
 	// the same through the SNP validator closure a relying party registers with go-sev-guest: the
 	// caller's verification time and count apply there as well
 	if g.SevSnp != nil {
@@ -233,6 +243,15 @@ func verifyDoc(d *issuedDoc, root *x509.Certificate) []string {
 }
 
 func sha512sum(b []byte) []byte { return fx.Sha384(b) }
+
+func keysOf(m map[uint32][]byte) []uint32 {
+	var r []uint32
+	for k := range m {
+		r = append(r, k)
+	}
+	sort.Slice(r, func(i, j int) bool { return r[i] < r[j] })
+	return r
+}
 
 // RunC03 is the C03 check.
 func RunC03(run *vk.Run) {
@@ -455,6 +474,83 @@ func RunC03(run *vk.Run) {
 		walk(a, nil, nil, roots[combo], 0, nil)
 	}
 	wg.Wait()
+	// the same candidate endorsed again into the same output directory (overwrite allowed): with another
+	// request, after a rotation, and by a second authority: what lies in the file after each run that
+	// reported success is that run's document
+	{
+		viol := func(key, what string, extra map[string]any) {
+			run.Violation(key, what+" [memkm+memca, one output directory]", extra)
+		}
+		dir, derr := os.MkdirTemp("", "vk-c03-rerun-")
+		if derr != nil {
+			run.Infra(derr)
+			return
+		}
+		defer os.RemoveAll(dir)
+		a1, err1 := NewAuthority(Combo{"memkm", "memca"})
+		a2, err2 := NewAuthority(Combo{"memkm", "memca"})
+		if err1 != nil || err2 != nil {
+			run.Infra(fmt.Errorf("%v %v", err1, err2))
+			return
+		}
+		defer a1.Close()
+		defer a2.Close()
+		for _, a := range []*Authority{a1, a2} {
+			if err := a.Exec(&Tap{}, "bootstrap", "--timestamp", ts(T0)); err != nil {
+				run.Infra(err)
+				return
+			}
+		}
+		type rerun struct {
+			what   string
+			a      *Authority
+			rotate bool
+			vmsas  uint32
+			clspec uint64
+			at     time.Time
+		}
+		steps := []rerun{{"first run", a1, false, 4, 100, Tn(1)}, {"another VMSA count and changelist", a1, false, 8, 200, Tn(2)}, {"after a rotation", a1, true, 8, 200, Tn(4)},
+			{"by a second authority", a2, false, 8, 200, Tn(5)}, {"by the first authority again", a1, false, 2, 300, Tn(6)}}
+		for _, st := range steps {
+			if st.rotate {
+				if err := st.a.Exec(&Tap{}, "rotate", "--timestamp", ts(Tn(3))); err != nil {
+					run.Infra(err)
+					return
+				}
+			}
+			kc, lerr := st.a.Loaded()
+			root, rerr := RootOf(st.a)
+			if lerr != nil || rerr != nil {
+				run.Infra(fmt.Errorf("%v %v", lerr, rerr))
+				return
+			}
+			ectx := &endorse.Context{Image: img4k, Timestamp: st.at, ClSpec: st.clspec, VCS: &localnonvcs.T{Root: dir}, OutDir: "out", CandidateName: "rc",
+				SevSnp: &sev.SnpEndorsementRequest{Product: sevsnp.SevProduct_SEV_PRODUCT_MILAN, LaunchVmsas: st.vmsas, Svn: 1}}
+			eerr := endorse.VirtualFirmware(endorse.NewContext(fx.Ctx(kc, true, false), ectx))
+			run.Case("rerun:"+st.what, true)
+			if eerr != nil {
+				viol("endorse-fails:rerun", fmt.Sprintf("endorsing the same candidate again (%s) with overwrite allowed fails: %v", st.what, eerr), nil)
+				continue
+			}
+			b, ferr := os.ReadFile(filepath.Join(dir, "out", "rc.binarypb"))
+			if ferr != nil {
+				viol("endorse-fails:rerun", "no endorsement file after a successful run: "+ferr.Error(), nil)
+				continue
+			}
+			d := &issuedDoc{bytes: b, req: fmt.Sprintf("rerun (%s): vmsas=%d clspec=%d ts=%s", st.what, st.vmsas, st.clspec, ts(st.at)), img: img4k, at: st.at}
+			for _, m := range verifyDoc(d, root) {
+				viol("issued-does-not-verify:rerun", fmt.Sprintf("%s: %s", d.req, m), nil)
+			}
+			en, g := &epb.VMLaunchEndorsement{}, &epb.VMGoldenMeasurement{}
+			if proto.Unmarshal(b, en) == nil && proto.Unmarshal(en.SerializedUefiGolden, g) == nil {
+				_, listed := g.GetSevSnp().GetMeasurements()[st.vmsas]
+				if !g.GetTimestamp().AsTime().Equal(st.at) || g.GetClSpec() != st.clspec || !listed || len(g.GetSevSnp().GetMeasurements()) != 1 {
+					viol("written-file-is-not-this-runs-document", fmt.Sprintf("%s: the run reported success, but the file holds a document dated %s with changelist %d listing counts %v", d.req,
+						ts(g.GetTimestamp().AsTime()), g.GetClSpec(), keysOf(g.GetSevSnp().GetMeasurements())), nil)
+				}
+			}
+		}
+	}
 	// a rotation that lands while an endorsement is being produced (in-memory authority, whose
 	// objects the two share): at every interface call of the endorse pipeline in turn a complete
 	// rotation is run; whatever the pipeline then writes must verify (it may also fail)
